@@ -164,7 +164,8 @@ func drawC05(t *rapid.T, maxRdb, maxCmds int, sync bool) *c05Case {
 	total := len(c.stream)
 	boundary := total - len(c.cmds) // first command byte
 	header := boundary - len(c.rdb) // first RDB byte
-	cand := []int{boundary - 2, boundary - 1, boundary, boundary + 1, boundary + 2, header - 3, header - 1, header, header + 1, 8192, 16384}
+	cand := []int{boundary - 2, boundary - 1, boundary, boundary + 1, boundary + 2, header - 3, header - 1, header, header + 1, 8192, 16384,
+		header + (boundary-header)/2, boundary - 9} // inside the RDB: its tail then travels together with the first command bytes
 	ns := rapid.IntRange(0, 6).Draw(t, "nsplits")
 	set := map[int]bool{}
 	for i := 0; i < ns; i++ {
@@ -178,8 +179,14 @@ func drawC05(t *rapid.T, maxRdb, maxCmds int, sync bool) *c05Case {
 		}
 	}
 	sortInts(c.splits)
+	delayChoice := []int{0, 0, 50, 300, 1500}
+	if sync {
+		// dump mode allocates its 32 MiB reader after the size line: only a pause of tens of milliseconds makes the
+		// following fragment arrive in a read of its own
+		delayChoice = []int{0, 0, 300, 1500, 40000}
+	}
 	for range c.splits {
-		c.delays = append(c.delays, time.Duration(rapid.SampledFrom([]int{0, 0, 50, 300, 1500}).Draw(t, "delayus"))*time.Microsecond)
+		c.delays = append(c.delays, time.Duration(rapid.SampledFrom(delayChoice).Draw(t, "delayus"))*time.Microsecond)
 	}
 	c.readFrag = rapid.SampledFrom([][]int{nil, {1}, {1, 2, 3}, {7}, {8192}, {1, 8191}, {100, 1}}).Draw(t, "readFrag")
 	c.bufSize = rapid.SampledFrom([]int{16, 64, 4096, 8192, 65536}).Draw(t, "bufSize")
